@@ -56,6 +56,19 @@ def corpus():
            ("msg", 0, obj(method="remove", params=obj(path="grow2"), id=4)),
            ("quiesce",), ("eof", 1), ("eof", 0), ("eof", 2), ("quiesce",)]
     out.append(Scenario(st, name="c15-fetcher-table-growth"))
+    # rendered messages longer than the printer's first buffer (answers, notifications, routed requests with long values)
+    big = "v" * 300
+    out.append(Scenario([("connect", 0, "raw", "local6"), ("connect", 1, "ws", "remote6"),
+                         ("msg", 1, obj(method="fetch", params=obj(id="f"), id=1)),
+                         ("msg", 0, obj(method="add", params=obj(path="big", value=big), id=1)),
+                         ("msg", 0, obj(method="add", params=obj(path="m"), id=2)),
+                         ("msg", 0, obj(method="change", params=obj(path="big", value=[big, big]), id=3)),
+                         ("msg", 1, obj(method="set", params=obj(path="big", value=big + "w"), id="r1")),
+                         ("msg", 1, obj(method="call", params=obj(path="m", args=[big]), id="r2")),
+                         ("reply", 0, 0, "result", big), ("reply", 0, 1, "error", obj(code=1, message=big)),
+                         ("msg", 1, obj(method="get", params=obj(), id=4)),
+                         ("msg", 0, obj(method="remove", params=obj(path="big"), id=4)),
+                         ("quiesce",), ("eof", 1), ("eof", 0), ("quiesce",)], name="c15-long-values"))
     for sc in directed.regressions():
         if sc.variant == "default" and not any(st[0] == "raw" for st in sc.steps):
             sc.name = "c15-" + sc.name
